@@ -65,6 +65,7 @@ type fakeProducer struct {
 	openCalls  map[string]int
 	closeCalls map[string]int
 	dropCalls  map[string]int
+	failNext   map[string]bool // the next OpenDB of the name fails (injected fault)
 }
 
 func newFakeProducer() *fakeProducer {
@@ -73,6 +74,7 @@ func newFakeProducer() *fakeProducer {
 		openCalls:  map[string]int{},
 		closeCalls: map[string]int{},
 		dropCalls:  map[string]int{},
+		failNext:   map[string]bool{},
 	}
 }
 
@@ -88,6 +90,10 @@ func (p *fakeProducer) live(name string) []*fakeStore {
 
 func (p *fakeProducer) OpenDB(name string) (kvdb.Store, error) {
 	p.openCalls[name]++
+	if p.failNext[name] {
+		delete(p.failNext, name)
+		return nil, fmt.Errorf("fake producer: injected failure opening %q", name)
+	}
 	if len(p.live(name)) != 0 {
 		return nil, fmt.Errorf("fake producer: database %q is already open", name)
 	}
@@ -146,6 +152,7 @@ func propC27(t *rapid.T) {
 	}
 	var history []string
 	overCloses, overClosesAfterOverlap, dropsIssued, dropsReached, reopenings, sharedOpens := 0, 0, 0, 0, 0, 0
+	failedOpens := 0
 	hist := func() string { return strings.Join(history, " ") }
 
 	pick := func(t *rapid.T, ok func(m *nameModel) bool) string {
@@ -257,6 +264,25 @@ func propC27(t *rapid.T) {
 		"open": func(t *rapid.T) {
 			doOpen(t, rapid.SampledFrom(names).Draw(t, "name"))
 		},
+		// the underlying producer fails to open the database (only reachable while no open of the name is held):
+		// the failed call is not an open, so nothing may be counted for it
+		"openFails": func(t *rapid.T) {
+			n := pick(t, func(m *nameModel) bool { return m.count == 0 })
+			history = append(history, "open("+n+") with injected underlying failure")
+			fake.failNext[n] = true
+			h, err := prod.OpenDB(n)
+			if err == nil {
+				t.Fatalf("OpenDB(%q) returned %v, nil although the underlying open failed; history: %s", n, h, hist())
+			}
+			delete(fake.failNext, n)
+			failedOpens++
+			// "at most one underlying drop per open": a failed attempt is counted as an open for this bound only
+			// (the wrapper re-arms its drop guard at the start of every OpenDB call; the text does not say whether
+			// a failed attempt is "an open", so the weaker reading is used)
+			m := model[n]
+			m.opens++
+			m.dropBase = fake.dropCalls[n]
+		},
 		// opening again a name that is open: the cached path
 		"openShared": func(t *rapid.T) {
 			doOpen(t, pick(t, func(m *nameModel) bool { return m.count > 0 }))
@@ -349,6 +375,7 @@ func propC27(t *rapid.T) {
 	st.Class("ops", int64(len(history)))
 	st.Class("overcloses", int64(overCloses))
 	st.Class("drops_issued", int64(dropsIssued))
+	st.Class("injected_open_failures", int64(failedOpens))
 	st.Class("drops_reaching_underlying", int64(dropsReached))
 	st.Sample(func() interface{} {
 		return map[string]interface{}{"wrap_all": useAll, "names": nNames, "history": hist()}
